@@ -281,6 +281,12 @@ class C06(Property):
     xlen = None if W.chance("x-endless", 1, 4) else W.choose("xlen", 11)
     if xlen is None and all(v is None for v in lens.values()):
       xlen = W.choose("xlen", 11)
+    if W.chance("long-run", 1, 300):
+      # hundreds of samples: whatever the generated code or the algebra
+      # accumulates or switches over to after a warm-up
+      lens = dict((k, None if v is None or W.chance("lr-endless", 1, 2)
+                   else 250 + 20 * v) for k, v in lens.items())
+      xlen = 300 + W.choose("lr-x", 200)
     if shape == "single" and W.chance("long-lag", 1, 25):
       # sparse high delays: every numerator term delayed by more than 32
       # samples, and a run long enough to get past that delay
